@@ -23,19 +23,26 @@ def gen_specs(rng, tier, want):
     for _ in range(want):
         n = int(rng.integers(1, nmax + 1))
         npt = int(rng.integers(n + 1, (n + 1) * (n + 2) // 2 + 1))
-        m_ub, m_eq = int(rng.integers(0, 3)), int(rng.integers(0, 2))
+        m_ub, m_eq = int(rng.integers(0, 3)), int(rng.integers(0, 4 if rng.random() < 0.5 else 2))
         L = int(rng.integers(3, 13 if tier == "quick" else 61))
         specs.append((int(rng.integers(1 << 30)), n, npt, m_ub, m_eq, L))
     return specs
 
 
+CRASHES = []
+
+
 def run_histories(specs):
     hs = []
+    del CRASHES[:]
     for sd, n, npt, m_ub, m_eq, L in specs:
         h = algrun.history(np.random.default_rng(sd), n, npt, m_ub, m_eq, L)
         if h is not None:
             h["spec"] = (sd, n, npt, m_ub, m_eq, L)
-            hs.append(h)
+            if "crash" in h:
+                CRASHES.append((h["spec"], h["crash"]))
+            else:
+                hs.append(h)
     answers = exact.driver_alg([h["line"] for h in hs]) if hs else []
     for h, a in zip(hs, answers):
         h["exact"] = algrun.parse_answer(a, h["nfun"])
@@ -85,6 +92,9 @@ def flag_injection(rng, n_cases):
     return fails
 
 
+REC = [0]
+
+
 def real_runs(rng, n_runs):
     """interpolation conditions along real minimize runs: after the initial sampling and after every
     update_interpolation / shift_x_base / reset_models"""
@@ -93,6 +103,8 @@ def real_runs(rng, n_runs):
     import genruns
     from cobyqa import minimize
     fails, n_checks = [], [0]
+    n_rec = REC
+    n_rec[0] = 0
     worst = [0.0]
     for _ in range(n_runs):
         d = genruns.gen(rng, "general")
@@ -130,21 +142,47 @@ def real_runs(rng, n_runs):
         names = ["update_interpolation", "shift_x_base", "reset_models"]
         origs = {nm: getattr(M.Models, nm) for nm in names}
         oinit = M.Models.__init__
+        import cobyqa.problem as P
+        ocall = P.Problem.__call__
+        evals = {}        # point as handed to the problem (bytes) -> values it returned (bytes)
+
+        def key(vals):
+            return b"|".join(np.atleast_1d(np.asarray(v, float)).tobytes() for v in vals)
+
+        def pcall(self, x, *a, **k):
+            out = ocall(self, x, *a, **k)
+            evals[np.asarray(x, float).tobytes()] = key(out)
+            return out
+
+        def recorded(models, k, x, what):
+            """the value recorded for interpolation point k is the one the problem returned at that very point"""
+            n_rec[0] += 1
+            got = evals.get(np.asarray(x, float).tobytes())
+            have = key((models.fun_val[k], models.cub_val[k, :], models.ceq_val[k, :]))
+            if got is None and not bad:
+                bad.append(f"after {what} the value recorded for interpolation point {k} belongs to a point that was never evaluated: {np.asarray(x).tolist()}")
+            elif got is not None and got != have and not bad:
+                bad.append(f"after {what} the value recorded for interpolation point {k} is not the value returned at that point")
 
         def mk(nm):
             def w(self, *a, **k):
                 out = origs[nm](self, *a, **k)
+                if nm == "update_interpolation":
+                    recorded(self, int(a[0]), a[1], nm)
                 check(self, nm)
                 return out
             return w
 
         def init(self, *a, **k):
             oinit(self, *a, **k)
+            for kk in range(self.npt):
+                recorded(self, kk, self.interpolation.point(kk), "the initial sampling")
             check(self, "the initial sampling")
         try:
             for nm in names:
                 setattr(M.Models, nm, mk(nm))
             M.Models.__init__ = init
+            P.Problem.__call__ = pcall
             with warnings.catch_warnings(), contextlib.redirect_stdout(io.StringIO()):
                 warnings.simplefilter("ignore")
                 try:
@@ -155,6 +193,7 @@ def real_runs(rng, n_runs):
             for nm in names:
                 setattr(M.Models, nm, origs[nm])
             M.Models.__init__ = oinit
+            P.Problem.__call__ = ocall
         if bad:
             fails.append((d, bad[0]))
     return fails, n_checks[0], worst[0]
@@ -166,6 +205,8 @@ def run(chk, rng, replay=None):
     specs = [tuple(replay["spec"])] if replay is not None and "spec" in replay else gen_specs(rng, chk.tier, want)
     hs = run_histories(specs)
     specfail, mism = [], []
+    for sp, what in CRASHES[:3]:
+        specfail.append((sp, "a valid operation on the models raised: " + what))
     n_ops = 0
     kinds = {"U": 0, "S": 0, "R": 0, "P": 0}
     worst = 0.0
@@ -212,7 +253,7 @@ def run(chk, rng, replay=None):
         "samples": [{"spec": hs[-1]["spec"], "ops": hs[-1]["kinds"]}] if hs else [],
         "operations_checked": n_ops, "operations_by_kind": kinds, "max_condition_number": max(conds) if conds else None,
         "worst_error_over_eps_cond_scale": worst, "tolerance_factor": TOLF, "flag_injection_cases": 12 if chk.tier == "quick" else 300,
-        "real_run_interpolation_checks": rr_checks, "real_run_worst_error_over_allowance_unit": rr_worst,
+        "real_run_interpolation_checks": rr_checks, "real_run_recorded_value_checks": REC[0], "real_run_worst_error_over_allowance_unit": rr_worst,
         "correspondence_mismatches": len(mism),
     })
     chk.assumptions += ["theorems are exact-arithmetic; the implementation is compared with allowance 1e3 * eps * (sum of cond(system) over the operations so far) * scale, cond measured per operation",
